@@ -669,41 +669,91 @@ struct RotModel
   std::vector<St> st;
 };
 
-// the wall-clock rotation points of a daily schedule in (a, b]
-bool daily_point_between(int64_t a_ns, int64_t b_ns, bool gmt, int hh, int mm)
+// The wall-clock rotation points of a daily schedule in (a, b]: 1 = a point certainly lies in between, 0 = certainly none,
+// -1 = only a point whose instant is a matter of interpretation does. On the day daylight saving time ends HH:MM can occur
+// twice (mktime with tm_isdst = -1 may return either occurrence — glibc's choice even depends on earlier calls); on the day
+// it starts HH:MM may not exist at all (mktime moves it, forwards or backwards). Either reading is accepted for those days.
+int daily_point_between(int64_t a_ns, int64_t b_ns, bool gmt, int hh, int mm)
 {
   if (b_ns <= a_ns)
   {
-    return false;
+    return 0;
   }
   int64_t a = a_ns / 1000000000ll, b = b_ns / 1000000000ll;
+  auto inside = [&](int64_t pt) { return pt * 1000000000ll > a_ns && pt * 1000000000ll <= b_ns; };
+  bool optional_inside = false;
   // candidate days: from the day of a - 1 to the day of b + 1
   // (half-day steps: with 24 h steps a probe taken late in the evening skips the calendar day of a DST change)
   for (int64_t day = a - 86400 * 2; day <= b + 86400 * 2; day += 43200)
   {
     time_t t = static_cast<time_t>(day);
-    tm tmv;
+    tm base;
     if (gmt)
     {
-      gmtime_r(&t, &tmv);
+      gmtime_r(&t, &base);
+      base.tm_hour = hh;
+      base.tm_min = mm;
+      base.tm_sec = 0;
+      if (inside(static_cast<int64_t>(timegm(&base))))
+      {
+        return 1;
+      }
+      continue;
+    }
+    localtime_r(&t, &base);
+    // every instant mktime may name for HH:MM of this calendar day, and whether it really reads HH:MM on that day
+    std::vector<int64_t> real, moved;
+    for (int isdst : {-1, 0, 1})
+    {
+      tm q = base;
+      q.tm_hour = hh;
+      q.tm_min = mm;
+      q.tm_sec = 0;
+      q.tm_isdst = isdst;
+      time_t r = mktime(&q);
+      if (r == static_cast<time_t>(-1))
+      {
+        continue;
+      }
+      tm back;
+      localtime_r(&r, &back);
+      bool same = back.tm_year == base.tm_year && back.tm_mon == base.tm_mon && back.tm_mday == base.tm_mday && back.tm_hour == hh &&
+        back.tm_min == mm && back.tm_sec == 0;
+      auto& into = same ? real : moved;
+      if (std::find(into.begin(), into.end(), static_cast<int64_t>(r)) == into.end())
+      {
+        into.push_back(static_cast<int64_t>(r));
+      }
+    }
+    if (real.size() == 1)
+    {
+      if (inside(real[0]))
+      {
+        return 1;
+      }
+    }
+    else if (real.size() >= 2)
+    {
+      size_t n_in = 0;
+      for (int64_t r : real)
+      {
+        n_in += inside(r) ? 1 : 0;
+      }
+      if (n_in == real.size())
+      {
+        return 1;
+      }
+      optional_inside = optional_inside || n_in > 0;
     }
     else
     {
-      localtime_r(&t, &tmv);
-    }
-    tmv.tm_hour = hh;
-    tmv.tm_min = mm;
-    tmv.tm_sec = 0;
-    tmv.tm_isdst = -1;
-    int64_t pt = static_cast<int64_t>(gmt ? timegm(&tmv) : mktime(&tmv));
-    // point pt (whole second): in (a_ns, b_ns] ?
-    int64_t pt_ns = pt * 1000000000ll;
-    if (pt_ns > a_ns && pt_ns <= b_ns)
-    {
-      return true;
+      for (int64_t r : moved)
+      {
+        optional_inside = optional_inside || inside(r);
+      }
     }
   }
-  return false;
+  return optional_inside ? -1 : 0;
 }
 
 Verdict run_rot(Case const& c, std::string const& dir)
@@ -773,7 +823,7 @@ Verdict run_rot(Case const& c, std::string const& dir)
   RotModel model;
   std::map<std::string, std::string> foreign; // name -> content
   int epoch = 0;
-  uint64_t restarts = 0, writes = 0, restarts_w = 0;
+  uint64_t restarts = 0, writes = 0, restarts_w = 0, dst_ambiguous_pairs = 0;
   bool rotation_may_have_stopped = false;
   // time rotation schedule (reading A: fixed grid, reading B: k periods after the previous trigger) for hourly/minutely
   int hh = 0, mm = 0;
@@ -1076,8 +1126,11 @@ Verdict run_rot(Case const& c, std::string const& dir)
         {
           if (freq == 1)
           {
-            bool pt = daily_point_between(prev_ts, op.b, gmt, hh, mm);
-            d.must = pt ? 1 : 0;
+            d.must = daily_point_between(prev_ts, op.b, gmt, hh, mm);
+            if (d.must < 0)
+            {
+              ++dst_ambiguous_pairs;
+            }
           }
           else
           {
@@ -1166,6 +1219,7 @@ Verdict run_rot(Case const& c, std::string const& dir)
     must_sep += d.must == 1;
     must_share += d.must == 0;
   }
+  v.probes["pairs_spanning_only_an_ambiguous_or_nonexistent_local_time"] = dst_ambiguous_pairs;
   v.probes["pairs_that_must_be_separated"] = must_sep;
   v.probes["pairs_that_must_share_a_file"] = must_share;
   return v;
